@@ -32,14 +32,16 @@
    mutex give OPanic, and a panic while a guard is alive poisons that mutex
    (`pois_jobs`, `pois_servers`), exactly as std::sync::Mutex does.
 
-   `fx = true` is the code after the `fix:` commit (reservation re-validated in
-   alloc_end_ok, completion no longer asserts); `fx = false` is the code as it was
-   (kept so that the old defect S8 stays replayable inside Coq).
+   `fx = true` is the code after the two `fix:` commits (reservation re-validated in
+   alloc_end_ok, completion no longer asserts; the job token is created BEFORE the
+   slot is reserved); `fx = false` is the code as it was (kept so that the old
+   defects S8 and S21 stay replayable inside Coq).
 
    Not modelled (the property excludes time-outs): prune_servers (90 s without a
    heartbeat), stale unclaimed jobs (60 s / 300 s), forgetting last_error (300 s);
    `last_seen`.  last_error is a logical clock value: only the order matters.
-   JobAuthorizer::generate_token is assumed to succeed.  *)
+   Whether JobAuthorizer::generate_token fails is a flag of the registration
+   (`sv_tokfail`, scripted by the hook through the authorizer it registers).  *)
 From Coq Require Import List NArith Bool.
 From Sccache Require Import Base.Sx Gen.C18Consts.
 Import ListNotations.
@@ -91,7 +93,8 @@ Record server : Type := mkServer {
   sv_unclaimed : list N;         (* keys of jobs_unclaimed *)
   sv_nonce : N;                  (* server_nonce *)
   sv_cpus : N;                   (* num_cpus *)
-  sv_last_error : option N       (* last_error, logical time *)
+  sv_last_error : option N;      (* last_error, logical time *)
+  sv_tokfail : bool              (* job_authorizer.generate_token fails (a property of the registration) *)
 }.
 
 Record st : Type := mkSt {
@@ -131,21 +134,22 @@ Definition poison_servers (s : st) : st :=
 
 Definition sv_set_assigned (v : server) (a : list N) : server :=
   {| sv_assigned := a; sv_unclaimed := sv_unclaimed v; sv_nonce := sv_nonce v; sv_cpus := sv_cpus v;
-     sv_last_error := sv_last_error v |}.
+     sv_last_error := sv_last_error v; sv_tokfail := sv_tokfail v |}.
 Definition sv_set_unclaimed (v : server) (u : list N) : server :=
   {| sv_assigned := sv_assigned v; sv_unclaimed := u; sv_nonce := sv_nonce v; sv_cpus := sv_cpus v;
-     sv_last_error := sv_last_error v |}.
+     sv_last_error := sv_last_error v; sv_tokfail := sv_tokfail v |}.
 Definition sv_set_last_error (v : server) (e : option N) : server :=
   {| sv_assigned := sv_assigned v; sv_unclaimed := sv_unclaimed v; sv_nonce := sv_nonce v; sv_cpus := sv_cpus v;
-     sv_last_error := e |}.
+     sv_last_error := e; sv_tokfail := sv_tokfail v |}.
 
-Definition fresh_server (nonce cpus : N) : server :=
-  {| sv_assigned := []; sv_unclaimed := []; sv_nonce := nonce; sv_cpus := cpus; sv_last_error := None |}.
+Definition fresh_server (nonce cpus : N) (tf : bool) : server :=
+  {| sv_assigned := []; sv_unclaimed := []; sv_nonce := nonce; sv_cpus := cpus; sv_last_error := None;
+     sv_tokfail := tf |}.
 
 (* ---------- messages and outcomes ---------- *)
 
 Inductive msg : Type :=
-| MHeartbeat (sid nonce cpus : N)
+| MHeartbeat (sid nonce cpus : N) (tokfail : bool)
 | MAllocBegin (ord : list N)
 | MAllocEndOk (j : N) (stt : jstate)
 | MAllocEndFail (j : N)
@@ -164,6 +168,7 @@ Inductive out : Type :=
 | OAllocOk (j sid : N)                (* Ok(AllocJobResult::Success) *)
 | OAllocGone (j sid : N)              (* Ok(AllocJobResult::Fail): the server was replaced in the window (fixed code) *)
 | OAllocErr (e : alloc_err)           (* Err: do_assign_job failed *)
+| OAllocTokErr                        (* Err: could not create an auth token for this job *)
 | OUpd (r : upd_res)
 | OStatus (nservers ncpus in_progress : N)
 | ONotInFlight.                       (* not a message: no such call is in its window *)
@@ -244,13 +249,15 @@ Definition iter_order (ord : list N) (srv : list (N * server)) : list (N * serve
 
 (* ---------- the handlers ---------- *)
 
-Definition alloc_begin (ord : list N) (s : st) : st * out :=
+Definition alloc_begin (fx : bool) (ord : list N) (s : st) : st * out :=
   if pois_servers s then (s, OPanic) else
   match choose (iter_order ord (servers s)) with
   | None => (s, OAllocNoCap (len (servers s)))
   | Some (sid, sv) =>
       let j := job_count s in
       let s1 := set_job_count s (j + 1) in
+      if fx && sv_tokfail sv then (s1, OAllocTokErr)                         (* fixed code: the token is created first *)
+      else
       if smem j (sv_assigned sv) then (poison_servers s1, OPanic)           (* assert!(jobs_assigned.insert(job_id)) *)
       else
         let sv1 := sv_set_assigned sv (sins j (sv_assigned sv)) in
@@ -258,6 +265,9 @@ Definition alloc_begin (ord : list N) (s : st) : st * out :=
           (poison_servers (set_servers s1 (aset sid sv1 (servers s1))), OPanic)
         else
           let sv2 := sv_set_unclaimed sv1 (sins j (sv_unclaimed sv1)) in
+          if sv_tokfail sv then                                              (* old code: `?` AFTER the inserts *)
+            (set_servers s1 (aset sid sv2 (servers s1)), OAllocTokErr)
+          else
           (set_inflight (set_servers s1 (aset sid sv2 (servers s1))) (aset j sid (inflight s1)), OWindow j sid)
   end.
 
@@ -305,7 +315,7 @@ Definition lock_both (s : st) : option st :=
   else if pois_servers s then Some (poison_jobs s)
   else None.
 
-Definition heartbeat (sid nonce cpus : N) (s : st) : st * out :=
+Definition heartbeat (sid nonce cpus : N) (tf : bool) (s : st) : st * out :=
   if cpus =? 0 then (s, OHbErr) else
   match lock_both s with
   | Some s' => (s', OPanic)
@@ -315,8 +325,8 @@ Definition heartbeat (sid nonce cpus : N) (s : st) : st * out :=
           if sv_nonce sv =? nonce then (s, OHb false)
           else
             let js := filter (fun kv => negb (smem (fst kv) (sv_assigned sv))) (jobs s) in
-            (set_servers (set_jobs s js) (aset sid (fresh_server nonce cpus) (servers s)), OHb true)
-      | None => (set_servers s (aset sid (fresh_server nonce cpus) (servers s)), OHb true)
+            (set_servers (set_jobs s js) (aset sid (fresh_server nonce cpus tf) (servers s)), OHb true)
+      | None => (set_servers s (aset sid (fresh_server nonce cpus tf) (servers s)), OHb true)
       end
   end.
 
@@ -369,8 +379,8 @@ Definition status (s : st) : st * out :=
 
 Definition step (fx : bool) (s : st) (m : msg) : st * out :=
   match m with
-  | MHeartbeat sid n c => heartbeat sid n c s
-  | MAllocBegin ord => alloc_begin ord s
+  | MHeartbeat sid n c tf => heartbeat sid n c tf s
+  | MAllocBegin ord => alloc_begin fx ord s
   | MAllocEndOk j stt => alloc_end_ok fx j stt s
   | MAllocEndFail j => alloc_end_fail j s
   | MUpdate j sid stt => update fx j sid stt s
@@ -386,3 +396,18 @@ Fixpoint trace (fx : bool) (s : st) (ms : list msg) : list (out * st) :=
   | [] => []
   | m :: r => let '(s', o) := step fx s m in (o, s') :: trace fx s' r
   end.
+
+(* ---------- vocabulary of the property statements ---------- *)
+
+Definition keys {V} (l : list (N * V)) : list N := map fst l.
+
+(* the only legal walk of a job: pending -> ready -> started -> complete *)
+Definition next_state (a : jstate) : option jstate :=
+  match a with Pending => Some Ready | Ready => Some Started | Started => Some Complete | Complete => None end.
+
+(* the property's capacity of a server: cores + 1 + cores/8 *)
+Definition capacity (cpus : N) : N := cpus + 1 + cpus / 8.
+
+(* the live jobs attributed to server sid *)
+Definition live_on (sid : N) (s : st) : list (N * (N * jstate)) :=
+  filter (fun kv => fst (snd kv) =? sid) (jobs s).
